@@ -32,7 +32,12 @@ func blockedState(st string) bool {
 	case "chan send", "chan receive", "select", "sync.Mutex.Lock", "semacquire", "sync.RWMutex.Lock", "sync.RWMutex.RLock", "sync.Cond.Wait", "sync.WaitGroup.Wait":
 		return true
 	}
-	return false
+	return blockedForever(st)
+}
+
+// blockedForever: states no other goroutine can ever end (the runtime's own wording)
+func blockedForever(st string) bool {
+	return strings.Contains(st, "(nil chan)") || strings.Contains(st, "select (no cases)")
 }
 
 // waitsFor maps a blocked go-upf goroutine to the goroutine role that must act
@@ -181,7 +186,20 @@ func c18Run(res *vh.Result, ci int, c c18Cfg, rng *vh.Rng) {
 			return 0
 		}
 	}
-	fs, err := vh.StartFull(vh.FullOpts{SMFs: 2, Kernel: k, Quiet: true, MaxRetrans: 1})
+	retrans := time.Duration(0)
+	if c.Scenario == "late-answers-while-the-loop-is-busy" {
+		// real retransmission timers (100 ms); one slow Update FAR keeps the loop busy while the timers of the
+		// reports in flight expire and the (late) answers arrive: both pile up in front of the loop
+		retrans = 100 * time.Millisecond
+		var slowed int32
+		k.Latency = func(r *vh.KReq) time.Duration {
+			if r.Cmd == vh.KCmdAddFAR && r.Flags&syscall.NLM_F_REPLACE != 0 && atomic.CompareAndSwapInt32(&slowed, 0, 1) {
+				return 450 * time.Millisecond
+			}
+			return 0
+		}
+	}
+	fs, err := vh.StartFull(vh.FullOpts{SMFs: 2, Kernel: k, Quiet: true, MaxRetrans: 1, Retrans: retrans})
 	if err != nil {
 		res.Inconc("start: " + err.Error())
 		return
@@ -199,9 +217,37 @@ func c18Run(res *vh.Result, ci int, c c18Cfg, rng *vh.Rng) {
 	var srrSeen int64
 	var mu sync.Mutex
 	seenSerial := map[uint64]bool{}
+	var lateMu sync.Mutex
+	lateAnswered := map[uint32]bool{}
 	for _, s := range fs.SMFs {
+		s := s
 		s.SetOnReport(func(d *vh.Datagram) vh.ReportAction {
 			atomic.AddInt64(&srrSeen, 1)
+			if c.Scenario == "late-answers-while-the-loop-is-busy" && d.M != nil {
+				// every request is answered once, 250 ms after its first copy (later than the retransmission timer)
+				lateMu.Lock()
+				first := !lateAnswered[d.M.Seq]
+				lateAnswered[d.M.Seq] = true
+				lateMu.Unlock()
+				if d.M != nil {
+					mu.Lock()
+					for _, e := range d.M.FindAll(vh.TUsaRepReq) {
+						u := vh.ParseURep(e)
+						if u.HasVol {
+							seenSerial[(u.Vol[0]-1)/1000] = true
+						}
+					}
+					mu.Unlock()
+				}
+				if first {
+					seq := d.M.Seq
+					time.AfterFunc(250*time.Millisecond, func() {
+						one := uint64(1)
+						s.SendFrom(0, vh.BuildMsg(vh.MRepRsp, &one, seq, vh.Cause(vh.CauseAccepted)))
+					})
+				}
+				return vh.ReportAction{Ignore: true}
+			}
 			if d.M != nil {
 				mu.Lock()
 				for _, e := range d.M.FindAll(vh.TUsaRepReq) {
@@ -259,7 +305,16 @@ func c18Run(res *vh.Result, ci int, c c18Cfg, rng *vh.Rng) {
 	}
 	finish := func(v *verdict, what string) {
 		atomic.StoreInt32(&stuck, 1)
-		if v.cycle != "" {
+		forever := ""
+		for _, g := range v.gs {
+			if roleName(g.Role) == "event-loop" && blockedForever(g.State) {
+				forever = g.State + "@" + g.Inner
+			}
+		}
+		if forever != "" {
+			// the loop sits in an operation on a nil channel: nothing can ever wake it (needs no second look)
+			viol("wedge:event-loop-blocked-forever:"+strings.ReplaceAll(forever, " ", "-"), fmt.Sprintf("no progress for 4 s while %s; the event loop is blocked for ever in %s; queues: %s", what, forever, v.q), v.gs)
+		} else if v.cycle != "" {
 			viol("wedge:"+v.cycle, fmt.Sprintf("no progress for 4 s while %s; wait-for cycle %s; queues: %s", what, v.cycle, v.q), v.gs)
 		} else if w2 := quiescent(v.gs); w2 != "" {
 			// W2: closed-system quiescence - a second dump one second later shows the event loop blocked at the same
@@ -391,6 +446,22 @@ func c18Run(res *vh.Result, ci int, c c18Cfg, rng *vh.Rng) {
 		}
 	}
 	switch c.Scenario {
+	case "late-answers-while-the-loop-is-busy":
+		what = "the answers to a burst of reports arrive after their retransmission timers fired, while a slow data-plane call keeps the loop busy"
+		burst(c.Burst, 1, "direct")
+		wg.Wait() // all handed to the server (non-blocking hand-over)
+		time.Sleep(30 * time.Millisecond)
+		{
+			up := ups[0]
+			seq := owner.NextSeq()
+			requests = append(requests, reqAsync(owner, vh.BuildMsg(vh.MModReq, &up, seq, vh.Rule{Kind: "FAR", ID: 1, Action: 2, Peer: 1, TEID: 9}.UpdateIE()), seq))
+		}
+		time.Sleep(600 * time.Millisecond) // the slow call is over; timers fired at 100 ms, answers came at 250 ms
+		for i := 0; i < 10; i++ {
+			up := ups[i%len(ups)]
+			seq := owner.NextSeq()
+			requests = append(requests, reqAsync(owner, vh.BuildMsg(vh.MModReq, &up, seq, vh.Grp(vh.TQueryURR, vh.URRID(1))), seq))
+		}
 	case "ticker-blocked-while-its-period-empties":
 		what = "the only URR of a one-second period is removed (followed by a bulk removal) while its slow query runs and its ticker fires again"
 		time.Sleep(1050 * time.Millisecond) // first real tick: the slow query is in progress
@@ -537,6 +608,7 @@ func runC18(res *vh.Result) {
 		{Scenario: "failing-slow-tick-then-reassociate", Sessions: 300, URRs: 2, Periods: 1},
 		{Scenario: "real-ticks-slow-query-reassociate", Sessions: 300, URRs: 2, Periods: 1},
 		{Scenario: "ticker-blocked-while-its-period-empties", Sessions: 300, URRs: 2, Periods: 1},
+		{Scenario: "late-answers-while-the-loop-is-busy", Sessions: 4, URRs: 1, Periods: 1, Burst: 40},
 	}
 	n := vh.Tiered(len(grid), 300)
 	res.Cases(n, func(i int, rng *vh.Rng) {
@@ -544,7 +616,7 @@ func runC18(res *vh.Result) {
 		if i < len(grid) {
 			c = grid[i]
 		} else {
-			c = c18Cfg{Scenario: []string{"tick-then-reassociate", "tick-then-delete-storm", "multicast-burst", "direct-burst", "mixed", "failing-slow-tick-then-reassociate", "real-ticks-slow-query-reassociate", "ticker-blocked-while-its-period-empties"}[rng.Intn(8)],
+			c = c18Cfg{Scenario: []string{"tick-then-reassociate", "tick-then-delete-storm", "multicast-burst", "direct-burst", "mixed", "failing-slow-tick-then-reassociate", "real-ticks-slow-query-reassociate", "ticker-blocked-while-its-period-empties", "late-answers-while-the-loop-is-busy"}[rng.Intn(9)],
 				Sessions: []int{10, 50, 100, 130, 200, 260, 300, 700, 1500}[rng.Intn(9)], URRs: rng.Range(1, 3), Periods: rng.Range(1, 3),
 				Burst: []int{100, 128, 129, 300, 600, 2000}[rng.Intn(6)], Producers: rng.Range(1, 8), KLatUs: []int{0, 0, 100, 1000}[rng.Intn(4)]}
 			if c.Sessions >= 700 {
